@@ -63,7 +63,10 @@ def run(diff, props, tier="quick"):
     try:
         for p in props:
             t0 = time.time()
-            rc, out = sh(f"python3-vt -m hv check {p} --tier {tier}", cwd=ROOT)
+            # evidence and replay files of runs against a seeded change go to scratch directories: /verif/evidence describes the unchanged tree only
+            env = dict(os.environ, HV_EVIDENCE_DIR="/tmp/seed-evidence", HV_REPLAY_DIR="/tmp/seed-replays")
+            os.makedirs("/tmp/seed-evidence", exist_ok=True)
+            rc, out = sh(f"python3-vt -m hv check {p} --tier {tier}", cwd=ROOT, env=env)
             lines = [l for l in out.splitlines() if l.startswith(("VIOLATION", "UNDECIDED", "KNOWN-FINDING", "CHECKER-CRASH", "CROSSCHECK")) or l.startswith(p + ":")]
             results[p] = {"exit": rc, "seconds": round(time.time() - t0, 1), "lines": [l[:300] for l in lines[:8]]}
     finally:
